@@ -9,7 +9,7 @@ import (
 func Parse(doc *y.Yaml) (Profile, error) {
 	profile := NewProfile()
 	if doc.IsMap() {
-		name, err := doc.Get("profile").String()
+		name, err := doc.Get("profile").Text()
 		if err != nil {
 			return profile, err
 		}
@@ -81,7 +81,7 @@ func parseValidationLevel(level string, profile *y.Yaml, validations *y.Yaml) ([
 		return rules, nil
 	}
 	for i := 0; i < size; i++ {
-		name, err := names.GetIndex(i).String()
+		name, err := names.GetIndex(i).Text()
 		if err == nil {
 			v := validations.Get(name)
 			if v.IsFound() {
